@@ -47,10 +47,19 @@ def sentinel(kind, n, which):
     raise ValueError(kind)
 
 
-def fill(t, which, counter=None, holes=None):
-    """Replace every value literal by the n-th sentinel of the assignment."""
+def fill(t, which, counter=None, holes=None, dup_lists=False):
+    """Replace every value literal by the n-th sentinel of the assignment. In assignment A all
+    elements of an in-list of one kind get the *same* value (the SQL must not depend on whether
+    values repeat), in assignment B they are all different."""
     if counter is None:
         counter = [0]
+    if dup_lists and t[0] == "list" and which == "A" and len(t[1]) > 1 and all(e[0] == "lit" and e[1] == t[1][0][1] and e[1] in HOLE_KINDS for e in t[1]):
+        n = counter[0]
+        counter[0] += len(t[1])
+        text, marker = sentinel(t[1][0][1], n, which)
+        if holes is not None:
+            holes.extend([(t[1][0][1], marker)] * len(t[1]))
+        return ("list", tuple(("lit", t[1][0][1], text) for _ in t[1]))
     if t[0] == "lit" and t[1] in HOLE_KINDS:
         n = counter[0]
         counter[0] += 1
@@ -61,7 +70,7 @@ def fill(t, which, counter=None, holes=None):
     cs = children(t)
     if not cs:
         return t
-    return rebuild(t, [fill(c, which, counter, holes) for c in cs])
+    return rebuild(t, [fill(c, which, counter, holes, dup_lists) for c in cs])
 
 
 def compile_backend(name, text):
@@ -93,10 +102,13 @@ BACKENDS = ["django", "sqlalchemy-orm", "sqlalchemy-core"]
 def check_case(case):
     from odata_query import exceptions
     t = from_json(case["term"])
-    ha, hb = [], []
-    ta, tb = fill(t, "A", holes=ha), fill(t, "B", holes=hb)
-    xa, xb = printer.render(ta), printer.render(tb)
     for name in case.get("backends", BACKENDS):
+        # Django's own `In` lookup de-duplicates equal values (fewer placeholders, all still bound), so the
+        # "repeated value" assignment is only used on SQLAlchemy, which keeps one placeholder per element
+        dup = name.startswith("sqlalchemy")
+        ha, hb = [], []
+        ta, tb = fill(t, "A", holes=ha, dup_lists=dup), fill(t, "B", holes=hb, dup_lists=dup)
+        xa, xb = printer.render(ta), printer.render(tb)
         try:
             sa_, pa = compile_backend(name, xa)
             sb_, pb = compile_backend(name, xb)
